@@ -31,12 +31,15 @@ func init() {
 		Rule: "every byte-consuming entry point (decoders, client finalizations on a live state, decode->Evaluate/EvaluateBatch/Verify chains, attester VerifyRequest/FinalizeIndex, UnmarshalTokenKey, ecdsa.VerifyASN1, ed25519.Verify, quicwire.Consume*) driven with structure-aware hostile inputs: " +
 			"every truncation and single-byte extension of honest encodings, every length/count field set to {0,1,actual-1,actual+1,2^k-1,2^k}, varints re-encoded in 1/2/4/8 bytes up to 2^62-1, every type tag, splices, seeded bit flips and random strings behind valid headers. " +
 			"Oracle per call: it returns (no panic, no process death, no CPU-time stall) and allocates at most C + S*len(input) bytes (runtime/metrics /gc/heap/allocs:bytes; C and S calibrated at start-up as 8x the largest honest allocation and 8x the largest honest bytes-per-input-byte ratio). Each call is journalled before it is made; workers run under RLIMIT_AS. " +
-			"distinct_nontrivial = distinct (target, outcome, mutation family) triples",
-		Floors:           []string{"calls_returned", "outcome_accept", "outcome_reject", "family_truncate", "family_lenfield", "family_varint", "family_tag", "family_random", "family_extend", "family_rebuild"},
-		Assumptions:      []string{"amd64", "ed25519.Verify is only ever given a 32-byte public key (a different key length is a documented caller-side precondition, not peer data)"},
-		HostileBytes:     true,
-		StallIsViolation: true,
-		Run:              runC03,
+			"A second, coverage-guided stage runs Go's native fuzzer (FuzzC03 in props/fuzz_test.go: mutated (target, input) pairs seeded with the honest and the well-framed hostile encodings, same oracle) for 40 000 / 4 000 000 executions. distinct_nontrivial = distinct (target, outcome, mutation family) triples",
+		Floors:            []string{"calls_returned", "outcome_accept", "outcome_reject", "family_truncate", "family_lenfield", "family_varint", "family_tag", "family_random", "family_extend", "family_rebuild"},
+		Assumptions:       []string{"amd64", "ed25519.Verify is only ever given a 32-byte public key (a different key length is a documented caller-side precondition, not peer data)"},
+		HostileBytes:      true,
+		StallIsViolation:  true,
+		FuzzTarget:        "FuzzC03",
+		FuzzExecsQuick:    40000,
+		FuzzExecsThorough: 4000000,
+		Run:               runC03,
 	})
 }
 
